@@ -470,6 +470,19 @@ def replay_add_field_simulate(label, inputs):
     from django_evolution.mutations import AddField
     from django_evolution.errors import SimulationFailure
     from django_evolution.db.state import DatabaseState
+    if label.startswith('no-shared-container'):
+        # ownership probe: after simulating, the new field signature must not hold the mutation's own attribute dict
+        for ftype, attrs in ((models.CharField, {'max_length': 10, 'null': True}),
+                             (models.ForeignKey, {'related_model': 'tests.TestModel', 'null': True})):
+            project_sig = _project_with_field(None, {})
+            m = AddField('TestModel', 'f', ftype, initial=None, **attrs)
+            m.run_simulation(app_label='tests', project_sig=project_sig,
+                             database_state=DatabaseState('default', scan=False), database='default')
+            fs = project_sig.get_app_sig('tests').get_model_sig('TestModel').get_field_sig('f')
+            if fs.field_attrs is m.field_attrs:
+                return {'reproduced': True, 'inputs': {'field_type': ftype.__name__, 'field_attrs': attrs},
+                        'observed': 'FieldSignature.field_attrs is the AddField mutation\'s own field_attrs dict'}
+        return {'reproduced': False, 'note': 'no sharing observed on the probes'}
     results = []
     for attrs in ({}, {'null': False}, {'max_length': 10}):
         project_sig = _project_with_field(None, {})
